@@ -54,6 +54,29 @@ def clampvec(null_index):
     return con
 
 
+
+# a second VIEW of clampVec (index == NULL) for callers whose vector may hold anything, NaN included (mj_fwdActuation clamps the
+# controls BEFORE it checks them): a NaN stays a NaN, everything else ends inside its range
+CLAMP_ANY = {
+    'params': {'vec': {'len': 'n'}, 'range': {'len': '2 * n'}, 'limited': {'len': 'n'}, 'index': {'null': True}},
+    'requires': {'sizes': '0 <= n and n < 2**30', 'no_index_list': 'index == NULL',
+                 'ranges_ordered_no_nan': 'forall(lambda k: implies(0 <= k and k < n and limited[k] != 0, fpLEQ(range[2*k], range[2*k+1])))'},
+    'assigns': ['vec[*]'],
+    'ensures': {
+        'limited_entries_end_inside_their_range_unless_nan': 'forall(lambda k: implies(0 <= k and k < n and limited[k] != 0, (isnan(vec[k]) and isnan(old(vec[k]))) or (inrange(vec[k], range[2*k], range[2*k+1]) and not isnan(old(vec[k])))))',
+        'limited_entries_inside_are_unchanged': 'forall(lambda k: implies(0 <= k and k < n and limited[k] != 0 and old(inrange(vec[k], range[2*k], range[2*k+1])), vec[k] == old(vec[k])))',
+        'unlimited_entries_untouched': 'forall(lambda k: implies(0 <= k and k < n and limited[k] == 0, vec[k] == old(vec[k])))',
+    },
+    'loops': {0: {'invariant': {
+        'range': '0 <= i and i <= n',
+        'done': 'forall(lambda k: implies(0 <= k and k < i and limited[k] != 0, (isnan(vec[k]) and isnan(old(vec[k]))) or (inrange(vec[k], range[2*k], range[2*k+1]) and not isnan(old(vec[k])))))',
+        'done_inside_unchanged': 'forall(lambda k: implies(0 <= k and k < i and limited[k] != 0 and old(inrange(vec[k], range[2*k], range[2*k+1])), vec[k] == old(vec[k])))',
+        'rest_untouched': 'forall(lambda k: implies(0 <= k and k < n and (k >= i or limited[k] == 0), vec[k] == old(vec[k])))',
+    }}},
+    'no_error': True,
+}
+
+
 DISABLED = {
     'params': {'m': {'n': 1, 'ptrfields': {'actuator_group': {'len': 'm.nactuator'}}}},
     'requires': {'index': '0 <= i and i < m.nactuator'},
